@@ -161,7 +161,6 @@ func judge(tc ccase) oracle {
 	return o
 }
 
-
 func PPFor(tc ccase) common.ProtocolParameters {
 	p := NeutralPP()
 	p.CollateralPercentage = tc.Pct
